@@ -42,9 +42,10 @@ def cases(ctx):
     for i, v in enumerate(vals):
         if v[0] in ("NoSuchObject", "NoSuchInstance", "EndOfMibView"):
             continue
-        if q and i % 3:
+        if q and i % 3 and v[0] != "Null":
             continue
-        C.append(dict(proto=PROTOS[(i + 3) % len(PROTOS)], values=[(v[0], v[1], None)], forms={}, form="single", api=("get", "getnext", "walk")[i % 3]))
+        for api in (("get", "getnext", "walk") if v[0] == "Null" or not q else (("get", "getnext", "walk")[(i // 3) % 3],)):
+            C.append(dict(proto=PROTOS[(i + 3) % len(PROTOS)], values=[(v[0], v[1], None)], forms={}, form="single", api=api))
     # (c) binding list lengths 0..40 and error-index / request-id values
     for n in ([0, 1, 2, 40] if q else list(range(0, 41))):
         C.append(dict(proto=rnd.choice(PROTOS), values=[rnd.choice(vals) + (None,) for _ in range(n)], forms={}, form="count%d" % n))
